@@ -23,6 +23,13 @@ def check(ctx):
     comp = Component(ctx.repo, REL, "PipelineBuilder", rule="C28")
     comp.require_modelled("C28")
     ctx.floor("C28", "PipelineBuilder configurations", len(comp.configs), 8, comp.site)
+    # the connector put between two nodes by default is Pipe: "clear discards all in-flight items" and "every item passes
+    # each stage exactly once" lean on its one-slot behaviour (clear wins over a write of the same cycle)
+    from . import C17 as _c17
+
+    ctx.use(_c17.REL)
+    pf = [o for ex_ in comp.configs for o in ex_.objects.values()]
+    _c17.check_pipe(ctx)
     ex0 = comp.configs[0]
     # roles: the two method lists
     rl = wl = None
